@@ -153,7 +153,7 @@ def ccRet (s : CCState) (i : Nat) (toks : List String) : CCState :=
     | ["ver", v, _, _], _ => s.flag s!"returned-version-not-served-by-machine c{i} {v}"
     | ["none"], .gc _ _ => s
     | _, .other => s
-    | [r], _ => if r == "fault" || r.startsWith "err" then s else s.flag s!"unexpected-return c{i} {r}"
+    | [r], _ => s.flag s!"unexpected-error-or-return c{i} {r.take 80}"
     | _, _ => s.flag s!"unexpected-return c{i}"
   ((s.fire (.stop i) "stop").setCall i .idle)
 
@@ -250,6 +250,10 @@ def cjLine (j : CJ) (l : String) : CJ × List String :=
     let line := (l.drop 2).toString
     let (st, _) := ccLine j.st line
     let j := { j with st := st }
+    -- no faults are injected in this family: a call that returns an error is a failure of its own
+    let errs := ((line.splitOn " :: ").filter fun e => e.startsWith "ret " && ((e.splitOn " ").getD 2 "").startsWith "err").map
+      fun e => s!"noerr call-failed {e.take 100}"
+    let j := { j with fails := j.fails ++ errs }
     if line.startsWith "END" then
       ({ j with fails := j.fails ++ cjFinal st ((line.splitOn " :: ").drop 1) }, [])
     else (j, [])
